@@ -12,7 +12,7 @@ Output {'out': [den, ...]} where den is a tagged tree:
   ['e', ExceptionName]  raised while building or evaluating
   ['x', text]           anything else
 """
-import json, operator, os, sys
+import copy, json, math, operator, os, sys
 from fractions import Fraction
 
 import sc3
@@ -31,12 +31,16 @@ from sc3.seq.event import Rest
 MAXLEN = 64
 
 PYOPS1 = {'neg': operator.neg, 'abs': operator.abs}
-PYOPS2 = {'add': operator.add, 'sub': operator.sub, 'mul': operator.mul, 'truediv': operator.truediv,
+PYOPS2 = {'pow': operator.pow, 'lshift': operator.lshift, 'rshift': operator.rshift,
+          'and_': operator.and_, 'or_': operator.or_,
+          'add': operator.add, 'sub': operator.sub, 'mul': operator.mul, 'truediv': operator.truediv,
           'floordiv': operator.floordiv, 'pymod': operator.mod, 'lt': operator.lt, 'le': operator.le,
           'gt': operator.gt, 'ge': operator.ge, 'eq': operator.eq, 'ne': operator.ne}
 
 
 def num(d):
+    if d[0] == 'B':
+        return bool(int(d[1]))
     return int(d[1]) if d[0] == 'I' else float(Fraction(d[1]))
 
 
@@ -70,7 +74,13 @@ def leaf(d, fns):
     if t == 'str':
         return mk_routine([num(i) for i in d[1]])
     if t == 'pat':
-        return Pseq([num(i) for i in d[1]])
+        key = json.dumps(d[1])
+        cache = fns[-1] if fns and isinstance(fns[-1], dict) else None
+        if cache is None:
+            return Pseq([num(i) for i in d[1]])
+        if key not in cache:
+            cache[key] = Pseq([num(i) for i in d[1]])     # the same Pattern object wherever it recurs
+        return cache[key]
     if t == 'pstr':            # an already-made pattern stream (PatternValueStream) yielding varying values
         return stream(Pseq([num(i) for i in d[1]]))
     if t == 'seq':
@@ -81,7 +91,12 @@ def leaf(d, fns):
     raise ValueError(d)
 
 
+DUNDER1 = {'floor': math.floor, 'ceil': math.ceil, 'trunc': math.trunc, 'round': round}
+
+
 def apply1(name, mode, a):
+    if mode == 'dunder':                 # round(a), math.trunc(a), math.floor(a), math.ceil(a)
+        return DUNDER1[name](a)
     if mode == 'op':
         return PYOPS1[name](a)
     if mode == 'meth':
@@ -90,6 +105,8 @@ def apply1(name, mode, a):
 
 
 def apply2(name, mode, a, b):
+    if mode == 'dunder':                 # round(a, n)
+        return round(a, b)
     if mode == 'op':
         return PYOPS2[name](a, b)
     if mode == 'meth':
@@ -111,6 +128,8 @@ def build(e, fns):
         return apply1(e[1], e[2], build(e[3], fns))
     if t == 'bin':
         return apply2(e[1], e[2], build(e[3], fns), build(e[4], fns))
+    if t == 'bin1':                      # second argument left to its default
+        return apply1(e[1], e[2], build(e[3], fns))
     if t == 'nar':
         return apply3(e[1], e[2], build(e[3], fns), [build(i, fns) for i in e[4]])
     if t == 'pseq':            # enclosing pattern: the items are EMBEDDED
@@ -178,9 +197,28 @@ def util_op(name, arity):
     return getattr(bi, name)
 
 
+def frozen(v):
+    return repr(v)
+
+
 def run_util(c):
     fn = c['fn']
     T = {'L': list, 'T': tuple, 'C': ChannelList, None: None}
+    if fn in ('list_binop', 'list_unop', 'list_narop'):
+        # the caller's (nested) lists must not be modified in place
+        a = val(c['a'])
+        rest = [val(c['b'])] if fn == 'list_binop' else ([val(i) for i in c['args']] if fn == 'list_narop' else [])
+        snap = (frozen(a), [frozen(i) for i in rest])
+        op = util_op(c['op'], {'list_unop': 1, 'list_binop': 2, 'list_narop': 3}[fn])
+        if fn == 'list_unop':
+            r = utl.list_unop(op, a, T[c['t']])
+        elif fn == 'list_binop':
+            r = utl.list_binop(op, a, rest[0], T[c['t']])
+        else:
+            r = utl.list_narop(op, a, *rest, t=T[c['t']])
+        if (frozen(a), [frozen(i) for i in rest]) != snap:
+            return 'argument mutated'
+        return r
     if fn == 'wrap_extend':
         return utl.wrap_extend([num(i) for i in c['lst']], c['n'])
     if fn == 'flop':
@@ -201,10 +239,26 @@ def main():
         try:
             if c['k'] == 'expr':
                 x = ([num(v) for v in c['pos']], {NAMES[n]: num(v) for n, v in c['kw']})
-                fns = [mk_fn(f) for f in c['fns']]
-                out.append(deep(build(c['e'], fns), x))
+                fns = [mk_fn(f) for f in c['fns']] + [{}]      # last entry: per-case cache of Pattern objects
+                obj = build(c['e'], fns)
+                if c.get('twice') and isinstance(obj, AbstractFunction):
+                    # warm-up call with OTHER arguments: a composite that caches operand values from its
+                    # first evaluation then answers the real call with stale values
+                    try:
+                        obj(*[v + 1 for v in x[0]], **{k: v + 1 for k, v in x[1].items()})
+                    except Exception:
+                        pass
+                res = deep(obj, x)
+                if c.get('twice'):
+                    # no cached operand values, no consumed state: a composed function called again and a
+                    # pattern streamed again give the same result
+                    if deep(obj, x) != res:
+                        res = ['x', 'second evaluation differs']
+                out.append(res)
             else:
-                out.append(deep(run_util(c), None))
+                before = json.dumps(c, sort_keys=True)
+                r = deep(run_util(c), None)
+                out.append(r)
         except RecursionError:
             out.append(['e', 'RecursionError'])
         except Exception as e:
